@@ -45,7 +45,7 @@ example : (appAcc.any fun a => a.2.1 == "RepData" && a.2.2.1 == "Segments" && a.
 prefixes, the embedded file system, defaults copied by value, and the two values built in `init` functions -/
 def reviewedGlobals : List (String × String) := [
   ("app", "DefaultConfig"), ("app", "ErrAtoInfTimeline"), ("app", "audioCodecPrefixes"), ("app", "content"),
-  ("app", "defaultBuckets"), ("app", "defaultIV"), ("app", "errBadConfig"), ("app", "errGone"), ("app", "errNotFound"),
+  ("app", "defaultBuckets"), ("app", "defaultIV"), ("app", "errBadConfig"), ("app", "errGone"), ("app", "errNotFound"), ("app", "errUploadAborted"),
   ("app", "initData"), ("app", "keyStart"), ("app", "kidStart"), ("app", "prometheusMW"), ("app", "textCodecPrefixes"),
   ("app", "timeExp"), ("app", "videoCodecPrefixes"),
   ("patch", "ErrPatchSamePublishTime"), ("patch", "ErrPatchTooLate"),
